@@ -26,7 +26,7 @@ def check(tier, seed, replay=None):
         meta["ConstGen"] = {"cases": len(cs), "gen_states": d, "gen_transitions": g}
         cases += [{"id": f"const{i}", "text": c["text"]} for i, c in enumerate(cs)]
         raw = []
-        for cfg, n in (("All5.cfg", 2500), ("Ops3.cfg", 1500)):
+        for cfg, n in (("All5.cfg", 2500), ("Ops3.cfg", 1500), ("UnPar.cfg", 500)):
             cs, g, d = core.gen_cases(parse.SPEC_DIR, "TokGen.tla", cfg, "tok" + cfg[:-4], workers=8)
             for i, c in enumerate(cs):
                 c["id"] = f"{cfg[:-4]}_{i}"
